@@ -531,10 +531,26 @@ pub fn deadline_alignment(g: &mut G) -> Scenario {
         }
     }
     clients.push(main);
+    let main_idx = clients.len() - 1;
+    let mut erase = None;
     if g.chance(300) {
         clients.push(vec![Op::Sleep(10), ask(0, g)]);
     }
-    Scenario { actors: vec![a], clients, probes: vec![], peer_slots: false, erase: None, expect: None }
+    // fan-out class (drawn last, so the other classes keep their scenarios): the timed call is made, its future is
+    // awaited only later - the deadline counts from the first poll, whichever handle type made the call
+    if g.chance(200) {
+        let us = g.pick(&[1u64, 1000, 2000, (t * 1000) / 2, t * 1000, t * 1000 + 1000]).max(1);
+        for o in clients[main_idx].iter_mut() {
+            if matches!(o, Op::TellT { .. } | Op::AskT { .. } | Op::TellUs { .. } | Op::AskUs { .. }) {
+                *o = Op::Deferred { op: Box::new(o.clone()), us };
+            }
+        }
+        // ... including a type-erased one (Box<dyn TellHandler> / Box<dyn AskHandler>): same deadline rule
+        if g.chance(500) {
+            erase = Some(g.below(1 << 40) | 1);
+        }
+    }
+    Scenario { actors: vec![a], clients, probes: vec![], peer_slots: false, erase, expect: None }
 }
 
 /// C08: on_run scripts with known await boundaries and messages arriving around them.
@@ -1208,7 +1224,7 @@ fn msgs_to<'a>(ops: &'a [Op], out: &mut Vec<(usize, u64)>) {
                 out.push(((*h % 50) as usize, m.id));
                 msgs_to(&m.steps, out);
             }
-            Op::Cancel { op, .. } | Op::Unpolled(op) => msgs_to(std::slice::from_ref(op), out),
+            Op::Cancel { op, .. } | Op::Unpolled(op) | Op::Deferred { op, .. } => msgs_to(std::slice::from_ref(op), out),
             Op::Fork { ops, .. } => msgs_to(ops, out),
             Op::Join(ops) | Op::Race(ops) => msgs_to(ops, out),
             _ => {}
@@ -1265,7 +1281,7 @@ fn inject_msg(ops: &mut [Op], mid: u64, at_end: bool) {
                     inject_msg(&mut m.steps, mid, at_end);
                 }
             }
-            Op::Cancel { op, .. } | Op::Unpolled(op) => inject_msg(std::slice::from_mut(&mut **op), mid, at_end),
+            Op::Cancel { op, .. } | Op::Unpolled(op) | Op::Deferred { op, .. } => inject_msg(std::slice::from_mut(&mut **op), mid, at_end),
             Op::Fork { ops, .. } => inject_msg(ops, mid, at_end),
             Op::Join(ops) | Op::Race(ops) => inject_msg(ops, mid, at_end),
             _ => {}
